@@ -171,7 +171,7 @@ def main(argv=None):
     import aw_datastore.storages.sqlite as sq
     from aw_core.models import Event
 
-    ck.run_witnesses(["w07", "w19"])
+    ck.run_witnesses(["w07", "w19", "w21"])
     ck.prove(extra_targets=["Bridge/BridgeCommit.v", "Model/CommitDriver.v"],
              gen_kernels=["commit", "conditional_commit", "sqlite_scripts", "peewee_autocommit"])
     have_driver = ck.driver()
@@ -197,8 +197,8 @@ def main(argv=None):
         "elementary writes are opaque tokens; 'the effects of the first j writes' is the dump of a shadow database on "
         "which the traced (expanded) SQL statements are replayed in issue order (SQLite determinism)",
         "executemany is observed as one statement per row inside one transaction (the model's ExecMany ws = ws one by one)",
-        "a bulk insert that fails after its first row (possible only by integer overflow at bind time) is outside the "
-        "model's op type: its earlier rows stay pending and uncounted (see notes/agents/C06.md)",
+        "a bulk insert that raises part-way (integer overflow at bind time) is the op InsertManyFailed: its rows that "
+        "went through are counted (over-counted) by the conditional_commit of the finally clause (ec39c3d)",
         "peewee ORM calls are tied by correspondence only (tie A); tie B covers the chunk size and the absence of "
         "explicit transaction control",
     ]
